@@ -289,6 +289,9 @@ func safely(f func()) (err string) {
 	defer func() {
 		if r := recover(); r != nil {
 			err = fmt.Sprint(r)
+			if os.Getenv("GZV_STACK") != "" {
+				err += "\n" + string(debug.Stack())
+			}
 		}
 	}()
 	f()
